@@ -42,7 +42,7 @@ func TestCheck(t *testing.T) {
 	// re-creation with another page size than the dropped database had
 	jobs = append(jobs, hist.Job{Name: "journal-recreate-other-page-size", Cfg: hist.Config{PageSize: 512, Start: 3, R2Starts: "absent", Alphabet: []string{"tx:t1", "drop", "createps", "restart", "restartP", "part", "heal"}, Prelude: []string{"drop:a"}}, Depth: 3, Budget: 60 * time.Second})
 	// a re-creation whose first transaction is rolled back, then a replica joins
-	jobs = append(jobs, hist.Job{Name: "journal-recreate-rolled-back", Cfg: hist.Config{PageSize: 512, Start: 3, R2Starts: "absent", Alphabet: []string{"createrb", "create", "start", "restart", "restartP", "tx:t1"}, Prelude: []string{"drop:a"}}, Depth: 3, Budget: 60 * time.Second})
+	jobs = append(jobs, hist.Job{Name: "journal-recreate-rolled-back", Cfg: hist.Config{PageSize: 512, Start: 3, R2Starts: "absent", Alphabet: []string{"createrb", "createrb0", "create", "start", "restart", "restartP", "tx:t1"}, Prelude: []string{"drop:a"}}, Depth: 3, Budget: 60 * time.Second})
 	if run.Thorough() {
 		jobs[0].Depth, jobs[0].Budget = 7, 20*time.Minute
 		jobs[1].Depth, jobs[1].Budget = 6, 20*time.Minute
